@@ -548,6 +548,10 @@ package main
 //@ func (*RuntimeState).loginHandler
 //@   handler loginPath
 //@ func (*RuntimeState).trySelfServiceGenerateBootstrapOTP
+// a bootstrap OTP without an administrator only where the operator opted in (allow_self_service_bootstrap_otp), and
+// only for a user who has no second factor registered
+//@   atcall (*RuntimeState).sendBootstrapOtpEmail requires (st *RuntimeState, hash []byte, otp string, d time.Duration, requesting string, authUser string) :: state.Config.Base.AllowSelfServiceBootstrapOTP && old(len(inputProfile.U2fAuthData) == 0 && len(inputProfile.TOTPAuthData) == 0 && !inputProfile.UserHasRegistered2ndFactor)   #C08.self-service-otp-mailed-only-where-opted-in @C08
+//@   atcall (*RuntimeState).SaveUserProfile requires (st *RuntimeState, un string, pr *userProfile) :: state.Config.Base.AllowSelfServiceBootstrapOTP && old(len(inputProfile.U2fAuthData) == 0 && len(inputProfile.TOTPAuthData) == 0 && !inputProfile.UserHasRegistered2ndFactor)   #C08.self-service-otp-stored-only-where-opted-in @C08
 //@   requires ghostPasswordOK && username == ghostPasswordUser                                              #C08.self-service-own-password @C08,C06
 //@   requires ghostProfileUser == username && !ghostProfileFromCache                                        #C15.self-service-only-with-primary @C15
 //@   atcall RuntimeState).SaveUserProfile overrides C06.authed-save (s2 *RuntimeState, username2 string, profile2 *userProfile) :: ghostPasswordOK && username2 == ghostPasswordUser  #C06.self-service-after-password @C06,C08
